@@ -418,6 +418,9 @@ type Clause struct {
 	Loop int
 	Line int
 	File string
+	// Props: a "requires[C01,C03]" clause is an obligation only at call sites inside functions that are under
+	// contract for one of the listed properties (typestate protocols rolled out property by property).
+	Props []string
 }
 
 type FuncContract struct {
@@ -438,6 +441,8 @@ type FuncContract struct {
 	Covers    []*Clause
 	Asserts   []*Clause
 	Inline    bool
+	Labels    []*CallAssert // label <name> before <callee> [#k]: names the state before that call for at(name, e) / passed(name)
+	SplitReturns bool // postconditions are checked per return statement (obligations ensures#k.retJ)
 	NoFrame   bool // the modifies clause is what callers see; the body's frame is assumed, not checked (listed)
 	ModifiesAll bool
 	CallAsserts []*CallAssert
@@ -506,7 +511,7 @@ type ContractFile struct {
 
 var clauseKeywords = map[string]bool{"requires": true, "ensures": true, "modifies": true, "loop": true, "prop": true, "nopanic": true,
 	"trusted": true, "defines": true, "trusted-ensures": true, "covers": true, "func": true, "extern": true, "pure": true, "rec": true, "uninterp": true, "axiom": true, "lemma": true,
-	"ghost": true, "effectfree": true, "type-invariant": true, "relayed": true, "exempt": true, "import": true, "inline": true, "noframe": true, "assert": true, "assert-call": true, "assert-update": true}
+	"ghost": true, "effectfree": true, "type-invariant": true, "relayed": true, "exempt": true, "import": true, "inline": true, "noframe": true, "splitreturns": true, "label": true, "assert": true, "assert-call": true, "assert-update": true}
 
 // ParseContractFile reads //@ lines from a file.
 func ParseContractFile(path, pkg string) (*ContractFile, error) {
@@ -535,6 +540,9 @@ func ParseContractText(text, path, pkg string) (*ContractFile, error) {
 		}
 		first := strings.Fields(body)[0]
 		first = strings.TrimSuffix(first, ":")
+		if strings.HasPrefix(first, "requires[") {
+			first = "requires"
+		}
 		if !clauseKeywords[first] && len(lines) > 0 {
 			lines[len(lines)-1].s += " " + body
 			continue
@@ -556,6 +564,11 @@ func ParseContractText(text, path, pkg string) (*ContractFile, error) {
 		fs := strings.Fields(l.s)
 		kw := fs[0]
 		rest := strings.TrimSpace(strings.TrimPrefix(l.s, kw))
+		var scoped []string
+		if strings.HasPrefix(kw, "requires[") && strings.HasSuffix(kw, "]") {
+			scoped = strings.Split(kw[len("requires["):len(kw)-1], ",")
+			kw = "requires"
+		}
 		switch kw {
 		case "import":
 			// import alias "path"
@@ -595,6 +608,24 @@ func ParseContractText(text, path, pkg string) (*ContractFile, error) {
 			cur.Inline = true
 		case "noframe":
 			cur.NoFrame = true
+		case "splitreturns":
+			cur.SplitReturns = true
+		case "label":
+			// label <name> before <callee> [#k]
+			if cur == nil || len(fs) < 4 || fs[2] != "before" {
+				return nil, fail(l.n, "label <name> before <callee> [#k]")
+			}
+			callee := strings.TrimSpace(strings.SplitN(rest, "before", 2)[1])
+			ord := -1
+			if h := strings.LastIndex(callee, " #"); h >= 0 {
+				o, err := strconv.Atoi(strings.TrimSpace(callee[h+2:]))
+				if err != nil {
+					return nil, fail(l.n, "label ordinal: %v", err)
+				}
+				ord = o
+				callee = strings.TrimSpace(callee[:h])
+			}
+			cur.Labels = append(cur.Labels, &CallAssert{Callee: callee, Ordinal: ord, C: &Clause{Kind: "label", Text: fs[1], Line: l.n, File: path}})
 		case "requires", "ensures", "covers", "assert", "defines", "trusted-ensures":
 			if cur == nil {
 				return nil, fail(l.n, "%s outside func", kw)
@@ -605,6 +636,7 @@ func ParseContractText(text, path, pkg string) (*ContractFile, error) {
 			}
 			switch kw {
 			case "requires":
+				c.Props = scoped
 				cur.Requires = append(cur.Requires, c)
 			case "ensures":
 				cur.Ensures = append(cur.Ensures, c)
